@@ -13,31 +13,31 @@ from .. import common, tlc
 
 INVS = ["TypeOK", "NeverReportsData", "GridOrderNoDup", "CompleteSoFar", "ExactlyTheMissing",
         "SecondScanEmpty", "HarvestTouchesOnlyReported", "ParseExact"]
-ALLREQ = ("combos", "cases", "mixed", "partial")
+ALLREQ = ("combos", "cases", "mixed", "partial", "foreigncombo", "foreigncase")
 BOTH = ("isnull", "isfinite")
 V3 = ("data", "nan", "inf")
 
 # name, sizes, NV, IntVars, Vals, Methods, KindSel, ReqKinds, emit?, quick sample (None = all)
 SHAPES_QUICK = [
     ("d1v1", [2], 1, [], V3, BOTH, "cells", ("combos", "cases"), True, None),
-    ("d1v2t", [2], 2, [2], V3, BOTH, "cells", ("combos", "cases"), True, 1500),
+    ("d1v2t", [2], 2, [2], V3, BOTH, "cells", ("combos", "cases", "foreigncase"), True, 1800),
     ("d1v1t3", [3], 1, [1], ("data", "nan"), ("isnull",), "cells", ("cases",), True, None),
     ("d2v1", [2, 2], 1, [], V3, BOTH, "cells", ALLREQ, True, None),
     ("d2v2t", [2, 2], 2, [2], ("data", "nan"), ("isnull",), "cells", ("mixed",), True, 2500),
     ("d2v3", [2, 2], 3, [], ("data", "inf"), ("isfinite",), "cells", (), True, 1200),
-    ("d3v1", [2, 2, 2], 1, [], ("nan", "inf"), BOTH, "cells", ("mixed",), True, 500),
+    ("d3v1", [2, 2, 2], 1, [], ("nan", "inf"), BOTH, "cells", ("mixed", "foreigncase"), True, 650),
     ("d3v2t", [2, 2, 2], 2, [1], V3, BOTH, ("allnan", "s1data"), ("partial",), True, 400),
-    ("d4v2t", [2, 2, 1, 2], 2, [2], V3, ("isnull",), ("allnan", "lastdata"), ("combos",), True, 250),
+    ("d4v2t", [2, 2, 1, 2], 2, [2], V3, ("isnull",), ("allnan", "lastdata"), ("combos", "foreigncombo"), True, 300),
 ]
 SHAPES_THOROUGH = [
     ("d1v1", [2], 1, [], V3, BOTH, "cells", ("combos", "cases"), True, None),
-    ("d1v2t", [2], 2, [2], V3, BOTH, "cells", ("combos", "cases"), True, None),
+    ("d1v2t", [2], 2, [2], V3, BOTH, "cells", ("combos", "cases", "foreigncase"), True, None),
     ("d1v3t", [2], 3, [1, 3], ("data", "nan"), ("isnull",), "cells", ("cases",), True, None),
     ("d1v1t3", [3], 1, [1], V3, BOTH, "cells", ("combos", "cases"), True, None),
     ("d2v1", [2, 2], 1, [], V3, BOTH, "cells", ALLREQ, True, None),
     ("d2v1t", [2, 2], 1, [1], V3, BOTH, "cells", (), True, None),
     ("d2v2t", [2, 2], 2, [2], ("data", "nan"), ("isnull",), "cells", ALLREQ, True, None),
-    ("d2v2ti", [2, 2], 2, [1], ("data", "inf"), ("isfinite",), "cells", ("mixed",), True, None),
+    ("d2v2ti", [2, 2], 2, [1], ("data", "inf"), ("isfinite",), "cells", ("mixed", "foreigncase"), True, None),
     ("d2v3", [2, 2], 3, [], ("data", "inf"), ("isfinite",), "cells", ("combos",), True, None),
     ("d2v3n", [2, 2], 3, [], ("nan", "inf"), BOTH, "cells", (), True, None),
     ("d2s33", [3, 3], 1, [], ("data", "nan"), ("isnull",), "cells", ("mixed",), True, None),
@@ -46,13 +46,14 @@ SHAPES_THOROUGH = [
     ("d3v2t", [2, 2, 2], 2, [1], V3, ("isnull",), ("allnan", "s1data", "alldata"), ("partial",), True, None),
     ("d3v3t", [2, 2, 2], 3, [2], V3, ("isfinite",), ("allinf", "s1nan", "naninf"), ("partial",), True, None),
     ("d4v2t", [2, 2, 1, 2], 2, [2], V3, ("isfinite",), ("allnan", "lastdata", "s1nan"), ("combos",), True, None),
-    ("d4v1", [2, 1, 2, 2], 1, [], ("data", "nan"), ("isnull",), "cells", ("mixed",), True, None),
+    ("d4v1", [2, 1, 2, 2], 1, [], ("data", "nan"), ("isnull",), "cells", ("mixed", "foreigncombo", "foreigncase"), True, None),
     # 16 locations: checked by TLC only (2^16 patterns x 2 criteria), no replay
     ("d4full", [2, 2, 2, 2], 1, [], ("data", "nan"), ("isnull",), "cells", (), False, None),
 ]
 BUGGY_RULES = {"anyvar": "any() across variables", "anypos": "any() inside a variable",
                "firstvar": "only the first variable inspected", "swap": "isnull/isfinite swapped",
-               "keyfalse": "unknown coordinate reported as present", "prepend": "reverse order",
+               "keyfalse": "unknown coordinate reported as present",
+               "ignoreforeign": "a requested parameter that is no dimension of the dataset is ignored", "prepend": "reverse order",
                "twice": "duplicates"}
 
 
@@ -109,6 +110,8 @@ COORD_TABLES = {
 }
 SORTED_VARIANTS = ["ints", "floats", "strs"]
 VARIANTS = ["int", "float", "str", "mixed"]
+FOREIGN = "e"                 # a parameter no dataset here has a dimension or coordinate for
+FOREIGN_VALUES = [5, 6]
 
 
 def table_for(variant, d):
@@ -218,14 +221,23 @@ def build_ds(c):
 
 def setting_dict(c, s):
     dims = dims_of(c)
-    return {dims[d]: coord_value(c["variant"], d, s[d], c["sizes"][d]) for d in range(len(s)) if s[d] != 0}
+    nd = len(dims)
+    out = {dims[d]: coord_value(c["variant"], d, s[d], c["sizes"][d]) for d in range(nd) if s[d] != 0}
+    if len(s) > nd and s[nd] != 0:
+        out[FOREIGN] = FOREIGN_VALUES[s[nd] - 1]
+    return out
 
 
 def project_setting(c, dct):
     nd = len(c["sizes"])
-    out = [0] * nd
+    out = [0] * (nd + 1)
     dims = dims_of(c)
     for key, val in dct.items():
+        if key == FOREIGN:
+            if val not in FOREIGN_VALUES:
+                return None
+            out[nd] = FOREIGN_VALUES.index(val) + 1
+            continue
         if key not in dims:
             return None
         d = dims.index(key)
@@ -384,8 +396,13 @@ def check_one(c):
                                 % (len(cases), [tuple(x) for x in again])))
     else:
         want = [list(s) for s in c["expect"]]
-        combos = {dims[cb["dim"] - 1]: [coord_value(c["variant"], cb["dim"] - 1, i, sizes[cb["dim"] - 1]) for i in cb["vals"]]
-                  for cb in c["combos"]}
+        combos = {}
+        for cb in c["combos"]:
+            d = cb["dim"] - 1
+            if d == nd:       # a parameter the dataset has no dimension for
+                combos[FOREIGN] = [FOREIGN_VALUES[i - 1] for i in cb["vals"]]
+            else:
+                combos[dims[d]] = [coord_value(c["variant"], d, i, sizes[d]) for i in cb["vals"]]
         cases = [setting_dict(c, s) for s in c["cases"]]
         objs = [("Dataset", ds)] + ([("DataArray", ds[VARS[0]])] if c["nv"] == 1 else [])
         for oname, obj in objs:
@@ -406,6 +423,18 @@ def check_one(c):
                     what = "parse-order"
                 bad.append((what, "parse_into_cases(%s, method=%s, %r) -> %r, expected %r"
                             % (oname, method, kw, new, [setting_dict(c, s) for s in want])))
+            # is_case_missing at every requested location (the request unrolled by the spec)
+            wantset = set(map(tuple, want))
+            for st in c.get("list", []):
+                try:
+                    m = xyz.is_case_missing(obj, setting_dict(c, st), method=method)
+                except Exception as e:  # noqa
+                    bad.append(("is-raises", "is_case_missing(%s, %r) raised %s: %s" % (oname, setting_dict(c, st), type(e).__name__, e)))
+                    break
+                if bool(m) != (tuple(st) in wantset):
+                    bad.append(("is-missing", "is_case_missing(%s, %r, method=%s) -> %r, expected %r"
+                                % (oname, setting_dict(c, st), method, m, tuple(st) in wantset)))
+                    break
     return bad
 
 
@@ -505,8 +534,13 @@ def run(rep):
     # non-vacuity of the emitted set
     nfind = [c for c in final if c["mode"] == "find"]
     if not any(c["npartial"] > 0 and c["missing"] for c in nfind) or not any(not c["missing"] for c in nfind) \
-            or not any(c["mode"] == "parse" and any(max(s) > max(c["sizes"]) for s in c["expect"]) for c in final):
+            or not any(c["mode"] == "parse" and any(any(s[d] > n for d, n in enumerate(c["sizes"])) for s in c["expect"]) for c in final):
         raise tlc.TLCError("vacuous case set: no partial-null pattern / no empty result / no absent coordinate among the cases")
+    nforeign = sum(1 for c in final if c["mode"] == "parse" and c["kind"].startswith("foreign")
+                   and any(s[-1] != 0 and any(any(k != "nan" for k in row) for row in c["cells"]) for s in c["expect"]))
+    if nforeign < 50:
+        raise tlc.TLCError("vacuous case set: only %d requests naming a foreign parameter on a dataset that holds data" % nforeign)
+    rep.extra["foreign_parameter_requests"] = nforeign
     nperm = sum(1 for c in final if c["layout"] == "permuted" and len(c["sizes"]) >= 2 and 0 < len(c.get("missing", c.get("expect"))) < len(c["cells"]))
     nroute = sum(1 for c in final if c.get("route") == "expand")
     if nperm < 50 or nroute < 20:
